@@ -188,7 +188,7 @@ class Sched:
             self.change_points = sorted(cp() for _ in range(d))
             self.prio = {}
         self.locks = []
-        self._rv = {"holder": None, "file": None, "ran": 0, "burst": 0}
+        self._rv = {"holder": None, "file": None, "line": 0, "ran": 0, "burst": 0}
         self._inserted = False
         # threads blocked in a *real* wait (a Future, Condition, Queue, join ... that the engine or a change to
         # it introduced): the watchdog takes the baton away from such a thread, it re-enters when it wakes up
@@ -508,7 +508,8 @@ class Sched:
             if st["holder"] is not None and st["holder"] != me["name"]:
                 # somebody is held at a shared line; I am the one running meanwhile
                 st["ran"] += 1
-                if is_shared and not opcode and frame.f_code.co_filename == st["file"]:
+                if is_shared and not opcode and frame.f_code.co_filename == st["file"] and \
+                        (not self.strategy.get("same_line") or frame.f_lineno == st["line"]):
                     st["holder"] = None
                     st["burst"] = self.strategy.get("burst", 60)
                     if self.rng.random() < 0.5:
@@ -521,6 +522,7 @@ class Sched:
                 if len(self._runnable()) > 1:
                     st["holder"] = me["name"]
                     st["file"] = frame.f_code.co_filename
+                    st["line"] = frame.f_lineno
                     st["ran"] = 0
                     self._handoff(me, where=self._where(frame))
                     if st["holder"] == me["name"]:
